@@ -3,6 +3,7 @@ import KernDriver.Abstract
 import KernModel.Spec.Tracker
 import KernModel.Spec.TextExport
 import KernModel.Spec.NormalForm
+import KernModel.Spec.Excerpt
 namespace KD.DocOps
 open Lean KM KD KD.TokOps
 
@@ -73,10 +74,13 @@ def handle (op : String) (j : Json) : Except String Json := do
       let sk := (KM.Spec.Track.run rows).skel
       let tk := (KM.C02K.TT.run P rows).toks
       let sp := exports.map (fun o => if o.fromM.isNone && o.toM.isNone then jexcept jstr (KM.C10T.specExportA o sk tk) else Json.null)
+      -- C08: the specification of a later excerpt on the core where no spine path above it is split or joined (KernModel.Spec.Excerpt;
+      -- theorem C08_excerpt_spec); null outside that core
+      let sp08 := exports.map (fun o => match KM.C08R.specExcerpt d o with | some r => jexcept jstr r | none => Json.null)
       pure (Json.mkObj [("import", Json.mkObj [("ok", if wantTree then jdoc d else Json.mkObj [("starts", jnats d.starts),
           ("errors", Json.arr (d.errors.map (fun (l, t) => Json.arr #[Json.num (JsonNumber.fromNat l), jstr t])).toArray),
           ("n_stages", Json.num (JsonNumber.fromNat d.stages.length))])]),
-        ("exports", Json.arr ex.toArray), ("spec", Json.arr sp.toArray), ("wf", Json.bool (KM.Spec.Track.wf rows))])
+        ("exports", Json.arr ex.toArray), ("spec", Json.arr sp.toArray), ("spec08", Json.arr sp08.toArray), ("wf", Json.bool (KM.Spec.Track.wf rows))])
   | "doc.transpose" =>
     let text ← getStr j "text"
     let table ← oracleOfJson (← j.getObjVal? "oracle")
